@@ -98,7 +98,7 @@ def GP.valid (p : GP) (s : Sol) : Except Err Bool := do
   pure (GP.validConv c)
 
 def GP.solveBruteforce (p : GP) (A : Option Rat) (B : Rat) (allS : Bool) (order : List Var)
-    (fill : Bool := false) : Except Err (List (List Var × List Var)) :=
+    (fill : Bool := true) : Except Err (List (List Var × List Var)) :=
   solveVia (p.toQubo A B) p.convert allS order fill p.numVars
 
 /-! ## SetCover -/
